@@ -111,6 +111,65 @@ Theorem C11_parse_file_roundtrip_x : forall e,
 Proof. exact parse_file_roundtrip_x. Qed.
 Print Assumptions C11_parse_file_roundtrip_x.
 
+(* M roundtrip_idempotent.  The normal form of a well-formed election is again well-formed, and a SECOND
+   write/parse round trip returns it unchanged up to the order of dictionary entries: [election_equiv]
+   (Proofs/PabulibRT.v) demands Leibniz equality of budget, vote type, every limit, and -- project by project,
+   ballot by ballot, in order -- of names, costs, categories, targets, voted projects, points and
+   multiplicities, and [Permutation] of the entry lists of the META dictionary, of each project's metadata and
+   of each ballot's metadata (= Python dict equality).  Leibniz equality of the META list itself does not hold:
+   a limit entry that has become a default is emitted at the end of the block by the next write. *)
+Theorem C11_canon_wf :
+  forall (show_num : Q -> str) (read_num : str -> option Q) (show_nat : nat -> str) (read_nat : str -> option nat),
+  (forall q, Qcanon q = true ->
+     read_num (show_num q) = Some q /\ cell_ok (show_num q) = true /\ no_comma (show_num q) = true
+     /\ show_num q <> []) ->
+  (forall n, read_nat (show_nat n) = Some n /\ cell_ok (show_nat n) = true /\ not_keyword (show_nat n) = true) ->
+  forall e, wf_electionb show_num read_num show_nat read_nat e = true ->
+    wf_electionb show_num read_num show_nat read_nat (canon show_num show_nat e) = true.
+Proof. exact canon_wf. Qed.
+Print Assumptions C11_canon_wf.
+
+Theorem C11_roundtrip_idempotent :
+  forall (show_num : Q -> str) (read_num : str -> option Q) (show_nat : nat -> str) (read_nat : str -> option nat),
+  (forall q, Qcanon q = true ->
+     read_num (show_num q) = Some q /\ cell_ok (show_num q) = true /\ no_comma (show_num q) = true
+     /\ show_num q <> []) ->
+  (forall n, read_nat (show_nat n) = Some n /\ cell_ok (show_nat n) = true /\ not_keyword (show_nat n) = true) ->
+  forall e, wf_electionb show_num read_num show_nat read_nat e = true ->
+    let e1 := canon show_num show_nat e in
+    parse_rows read_num read_nat (write_rows show_num show_nat e) = Some e1
+    /\ wf_electionb show_num read_num show_nat read_nat e1 = true
+    /\ exists e2, parse_rows read_num read_nat (write_rows show_num show_nat e1) = Some e2
+                  /\ election_equiv e2 e1.
+Proof. exact roundtrip_idempotent. Qed.
+Print Assumptions C11_roundtrip_idempotent.
+
+Theorem C11_roundtrip_idempotent_x : forall e,
+  wf_election_x e = true ->
+  let e1 := canon_x e in
+  parse_rows_x (write_rows_x e) = Some e1
+  /\ wf_election_x e1 = true
+  /\ exists e2, parse_rows_x (write_rows_x e1) = Some e2 /\ election_equiv e2 e1.
+Proof. exact roundtrip_idempotent_x. Qed.
+Print Assumptions C11_roundtrip_idempotent_x.
+
+(* the equivalence is what it says: equal fields, permuted dictionaries *)
+Theorem C11_election_equiv_spec : forall a b, election_equiv a b ->
+  Permutation.Permutation (e_meta a) (e_meta b)
+  /\ Forall2 (fun p q => p_name p = p_name q /\ p_cost p = p_cost q /\ p_cats p = p_cats q
+                         /\ p_targets p = p_targets q /\ Permutation.Permutation (p_meta p) (p_meta q))
+             (e_projects a) (e_projects b)
+  /\ e_budget a = e_budget b /\ e_vtype a = e_vtype b
+  /\ Forall2 (fun x y => b_projects x = b_projects y /\ b_points x = b_points y /\ b_mult x = b_mult y
+                         /\ Permutation.Permutation (b_meta x) (b_meta y))
+             (e_ballots a) (e_ballots b)
+  /\ e_min_len a = e_min_len b /\ e_max_len a = e_max_len b
+  /\ e_min_cost a = e_min_cost b /\ e_max_cost a = e_max_cost b
+  /\ e_min_total a = e_min_total b /\ e_max_total a = e_max_total b
+  /\ e_min_score a = e_min_score b /\ e_max_score a = e_max_score b.
+Proof. exact election_equiv_spec. Qed.
+Print Assumptions C11_election_equiv_spec.
+
 (* non-vacuity: a concrete election of the model with separators and quotes in names and metadata, a decimal
    cost, a cost limit below the budget and a default length limit; it is well-formed, its round trip through
    write_rows/csv_join/csv_split/parse_rows is literally [canon e], and the parsed header is the written one *)
